@@ -26,7 +26,7 @@ ASSUMPTIONS = [
     'main claim: a parent is connected to a child by at most one edge (complement: known finding C03/parent-connected-twice)',
     'values are scalars (the executor does not inspect them)',
 ]
-OUTSIDE = ['graphs beyond the listed programs (12 curated shapes, <= 6 nodes)', 'non-string node names',
+OUTSIDE = ['graphs beyond the solver-chosen family (<= 3 nodes quick, 4 nodes thorough) and the curated programs (<= 6 nodes)', 'non-string node names',
            'remote clients (pickling)']
 
 
@@ -245,7 +245,7 @@ MANIFEST = {
                   'nodes of each listed program, each output equals the denotational meaning computed from the declared structure, '
                   'each operation receives exactly its declared keyword arguments and runs exactly as often as needed (0 when not '
                   'needed or supplied), and graphs with stochastic observed data are rejected (EUF validity queries per path).',
-    'level_note': '12 curated program shapes (<=6 user nodes: positional/named edges, shared constants, partial observations, '
+    'level_note': 'every program of 3 nodes (solver-chosen kinds, positional/named edges, positional order, observations, meta flag history; 4 nodes in the thorough tier) and 14 curated program shapes (<=6 user nodes: positional/named edges, shared constants, partial observations, '
                   'summary chains, two simulators, meta users), batch_size in {1,3}, two consecutive batches on one context for 4 '
                   'programs; scalar values; z3 trusted.',
 }
